@@ -39,6 +39,8 @@ let msg_of_descr (d : string) : msg =
   | "I" -> MInit
   | "X" -> MTerm
   | "S" -> MStats (pph_of (i 1))
+  (* Route Mirroring (type 6): the state machine treats it exactly as a Statistics Report (BmpStreamModel.msg_type_code) *)
+  | "M" -> MStats (pph_of (i 1))
   | "U" -> MPeerUp (pph_of (i 1), i 2 = 1)
   | "D" -> MPeerDown (pph_of (i 1))
   | "R" -> MRoute (pph_of (i 1), Some (URoutes (n (i 2), plist f.(4), n (i 3), n (i 5), plist f.(6))))
@@ -106,11 +108,30 @@ let run_case (line : string) : string =
       Stdlib.List.iter (function `B l -> k := !k + Stdlib.List.length l | `E _ -> incr k | `G -> acc := !k :: !acc) !evs;
       Stdlib.List.rev !acc in
     let parse fr = if !full then (match Stdlib.List.assoc_opt (hex_of fr) !table with
-                                  | Some d when d <> "y" -> Some (msg_of_descr d) | _ -> None) else None in
+                                  | Some d when d <> "y" ->
+                                      (* BmpStreamModel.parse_types_ok: what routecore's from_octets guarantees, and what every
+                                         frame of a parse table satisfies (they come from the encoders) *)
+                                      if int_of_n (frame_type fr) > 6 then failwith "parse table holds a frame with a type octet above 6";
+                                      Some (msg_of_descr d)
+                                  | _ -> None) else None in
     let (rid, s0) = conn_init (n 1) in
     let (uid, _) = IngressModel.reg_register IngressModel.reg_new in
     let total = Stdlib.List.length mevs in
-    let res = run_from parse true (if !hang then THang else TEof) rid mevs s0 in
+    (* the loop with the unit level counters; BmpUnitProofs.loopm_fst: its first component is run_from *)
+    let (res, ures) = run_from_m parse (if !hang then THang else TEof) rid mevs s0 um_init in
+    (* the unit level counters as /metrics shows them for this router *)
+    let unit_token (s : sess) (u : umetrics) =
+      let unproc = int_of_n s.s_sm.sm_metrics.m_unprocessable in
+      match u.um_router with
+      | None -> Printf.sprintf "k:-,l%d,s%d" (int_of_n u.um_lost) unproc
+      | Some _ ->
+          let r = router_metrics u in
+          Printf.sprintf "k:%s,p%d,i%d,e%d,l%d,s%d" (join "." (Stdlib.List.map (fun x -> string_of_int (int_of_n x)) r.rm_recv))
+            (int_of_n r.rm_processed) (int_of_n r.rm_invalid) (int_of_n r.rm_ioerr) (int_of_n u.um_lost) unproc in
+    (* after the session: connection_lost_count, the router's series gone, bmp_num_connected_routers back to 0 *)
+    let final_token res =
+      let u = unit_final (res, ures) in
+      Printf.sprintf "K:%d,l%d,c0" (match u.um_router with None -> 0 | Some _ -> 1) (int_of_n u.um_lost) in
     let shape_tokens out =
       let l = Stdlib.List.length out in
       let tail = Stdlib.List.filteri (fun i _ -> i >= l - 2) out in
@@ -142,9 +163,15 @@ let run_case (line : string) : string =
     (* the pages: BmpPageModel.page_at. The reader gets to a `G` placed after k events iff it is asked for more
        at that point: more events were consumed, or exactly k and the session ended on the tail of the script *)
     let get_tokens e pos =
-      Stdlib.List.map (fun k ->
+      Stdlib.List.concat_map (fun k ->
           let reached = k < pos || (k = pos && (e = EndEof || e = EndTerm)) in
-          match BmpPageModel.page_at parse rid mevs (nat_of_int k) s0 with
+          let ktok =
+            if not !full then [] else
+            match conn_at parse rid mevs (nat_of_int k) s0 um_init with
+            | None -> ["k:-"]
+            | Some (s, u) -> [unit_token s (page_visit u)] in      (* the client read the router's page first *)
+          (fun g -> g :: ktok)
+          (match BmpPageModel.page_at parse rid mevs (nat_of_int k) s0 with
           | None -> if reached then failwith "page_at: session over, but the reader is asked again" else "g:-"
           | Some _ when not reached -> failwith "page_at: session alive, but the reader is not asked again"
           | Some None -> "g:L200,Ipanic,m1"
@@ -153,13 +180,13 @@ let run_case (line : string) : string =
                 let ids = Stdlib.List.map int_of_n l in
                 let rec asc = function a :: (b :: _ as r) -> a < b && asc r | _ -> true in
                 Printf.sprintf "g:L200,I200,m1,e%d,o%d" (Stdlib.List.length ids) (if asc ids then 1 else 0)
-              end else "g:L200,I200,m1") gets in
+              end else "g:L200,I200,m1")) gets in
     match res with
     | Done (e, rest, s, out) ->
         let en = match e with EndEof -> "eof" | EndErr k -> "e-" ^ kind_name k | EndShort -> "bytes" | EndTerm -> "hang" in
         let pos = total - Stdlib.List.length rest in
-        join " " ([ "end:" ^ en; Printf.sprintf "pos:%d" pos ] @ shape_tokens out @ get_tokens e pos @ full_tokens s out)
+        join " " ([ "end:" ^ en; Printf.sprintf "pos:%d" pos ] @ shape_tokens out @ [final_token res] @ get_tokens e pos @ full_tokens s out)
     | Panic (_, rest, s) ->
-        join " " ([ "PANIC"; "end:bytes"; Printf.sprintf "pos:%d" (total - Stdlib.List.length rest) ] @ shape_tokens s.s_out @ full_tokens s s.s_out)
+        join " " ([ "PANIC"; "end:bytes"; Printf.sprintf "pos:%d" (total - Stdlib.List.length rest) ] @ shape_tokens s.s_out @ [final_token res] @ full_tokens s s.s_out)
     | OutOfFuel -> "WEDGE"
   end
